@@ -13,9 +13,24 @@ TB = "{%s}" % NS_TABLE
 OF = "{%s}" % NS_OFFICE
 
 # cell payloads: (value, style); value None = empty cell.  Interned to naturals for the driver:
-VALUES = [None, "a", "b", "c", "d", 7, 42, 0, True]      # 0: a falsy real value; True: the boolean branch (0 == False in Python, so never both)
+VALUES = [None, "a", "b", "c", "d", 7, 42, 0, True, 1, False]      # 0 / False and True / 1: equal for Python's ==, different cell values: every comparison goes through canon()
 STYLES = [None, "ce1"]
 EMPTY = (None, None)
+
+
+def canon(v):
+    """type-exact form of a value / list of values: booleans never compare equal to numbers"""
+    if isinstance(v, bool):
+        return ("bool", v)
+    if isinstance(v, (list, tuple)):
+        return tuple(canon(x) for x in v)
+    if isinstance(v, dict):
+        return tuple(sorted((k, canon(x)) for k, x in v.items()))
+    return v
+
+
+def same(a, b) -> bool:
+    return canon(a) == canon(b)
 
 
 def pay_id(p) -> int:
@@ -221,7 +236,7 @@ def mk_row(cells, rep=1):
     i = 0
     while i < len(cells):
         j = i
-        while j + 1 < len(cells) and cells[j + 1] == cells[i]:
+        while j + 1 < len(cells) and same(cells[j + 1], cells[i]):
             j += 1
         row.append_cell(mk_cell(cells[i], j - i + 1))
         i = j + 1
@@ -249,8 +264,8 @@ def table_from_rle(cols, rows, how="api"):
                 parts.append(f"<table:table-cell{at}/>")
             elif isinstance(v, str):
                 parts.append(f'<table:table-cell office:value-type="string" calcext:value-type="string"{at}><text:p>{v}</text:p></table:table-cell>')
-            elif v is True:         # these two carry no text:p child: the value attribute alone keeps them
-                parts.append(f'<table:table-cell office:value-type="boolean" office:boolean-value="true"{at}/>')
+            elif isinstance(v, bool):         # these carry no text:p child: the value attribute alone keeps them
+                parts.append(f'<table:table-cell office:value-type="boolean" office:boolean-value="{"true" if v else "false"}"{at}/>')
             elif v == 0:
                 parts.append(f'<table:table-cell office:value-type="float" office:value="0"{at}/>')
             else:
@@ -638,7 +653,7 @@ def check_reads(t, g: Grid, rng) -> list:
     vals = g.values()
 
     def cmp(what, got, exp):
-        if got != exp:
+        if not same(got, exp):
             bad.append((what, got, exp))
 
     cmp("size", tuple(t.size), (W, H))
@@ -691,7 +706,7 @@ def compress(cells) -> list:
     """expanded payload list -> the run-length line mk_row builds"""
     out = []
     for p in cells:
-        if out and out[-1][0] == p:
+        if out and same(out[-1][0], p):
             out[-1] = (p, out[-1][1] + 1)
         else:
             out.append((p, 1))
@@ -879,7 +894,7 @@ def row_reads(row, ref, rng) -> list:
     bad = []
 
     def cmp(what, got, exp):
-        if got != exp:
+        if not same(got, exp):
             bad.append((what, got, exp))
 
     vals = [c[0] for c in ref]
